@@ -123,6 +123,8 @@ package proc
 //@   requires w != nil
 //@   modifies all
 //@   callpre OnSvcConfigUpdate @the-update-reaches-the-wrapped-processor arg1 == cfg
+//@   callpre setDefaultValue @defaults-are-filled-in-before-the-update-reaches-the-processor arg0 == cfg
+//@   alsoprop C05 C06 C09 : defaults-are-filled-in-before-the-update-reaches-the-processor the-update-reaches-the-wrapped-processor
 
 // ---- C09/C20: the accept loop hands every accepted connection to exactly one handler goroutine ------------------
 
